@@ -67,7 +67,10 @@ func NewStreamDecoder(r io.Reader) *StreamDecoder {
 // or syntax error from data will be recorded and stop subsequently decoding.
 func (self *StreamDecoder) Decode(val interface{}) (err error) {
 	// read more data into buf
-	if self.More() {
+	if self.err != nil {
+		return self.err
+	}
+	if _, perr := self.peek(); perr == nil {
 		var s = self.scanp
 	try_skip:
 		var e = len(self.buf)
@@ -75,12 +78,16 @@ func (self *StreamDecoder) Decode(val interface{}) (err error) {
 		// try skip
 		var x = 0
 		if y := native.SkipOneFast(&src, &x); y < 0 {
+			if types.ParsingError(-y) != types.ERR_EOF {
+				self.setErr(SyntaxError{x, string(self.buf[s:e]), types.ParsingError(-y), ""})
+				return self.err
+			}
 			if self.readMore() {
 				goto try_skip
 			}
-			if self.err == nil {
-				self.err = SyntaxError{e, self.s, types.ParsingError(-s), ""}
-				self.setErr(self.err)
+			if self.err == io.EOF {
+				// the reader ended inside a value
+				self.err = io.ErrUnexpectedEOF
 			}
 			return self.err
 		} else {
